@@ -16,7 +16,7 @@ sh('git -C /repo worktree remove --force %s' % wt)
 rc, out = sh('git -C /repo worktree add -q --detach %s HEAD' % wt); assert rc == 0, out
 res = {'id': sid, 'dir': mdir, 'props': props}
 try:
-    py = 'cd %s && PYTHONPATH=%s /venv/bin/python' % (mdir, wt)
+    py = 'cd %s && PYSPIKE_TREE=%s PYTHONPATH=%s /venv/bin/python' % (mdir, wt, wt)
     rc, out = sh('%s demo.py' % py); res['demo_clean_rc'] = rc
     rc, out = sh('git -C %s apply %s' % (wt, os.path.join(mdir, 'patch.diff'))); res['apply_rc'] = rc; res['apply_out'] = out[-300:]
     if rc == 0:
